@@ -1,6 +1,38 @@
 import extract
 import callgraph
-from rules import c19, c04c, recursion, bufbudget, common
+from rules import c19, c04c, c01, recursion, bufbudget, common
+import report
+
+
+ACCESSOR_UNITS = ("uvprims.c", "bytevector.c")
+
+
+def type_guards(prog, res, floor=60):
+    """(g) the kind-set dataflow of C01.b, read for the numeric accessor stubs: every field of the vector argument
+    is read only after a tag test that admits only (uniform / byte) vectors - an accessor applied to a list or a
+    fixnum signals an error instead of reading through it"""
+    tmp = report.Result("C19", "quick")
+    c01.run_b(prog, tmp, floor=0)
+    stat = res.stat("C19.g", "numeric accessor stubs: typed accesses on the vector argument are dominated by its tag test", floor=floor)
+    n = 0
+    for st in tmp.stats:
+        pass
+    for f in list(tmp.findings) + list(tmp.advisories):
+        if f.rule.startswith("C01.b") and any(f.unit.endswith(u) for u in ACCESSOR_UNITS):
+            f.prop = "C19"
+            f.rule = "C19.g.untyped-vector-argument"
+            f.advisory = False
+            res.add(f)
+            n += 1
+    # obligations of those units: counted from the generated stubs themselves
+    total = 0
+    for fn in prog.all_funcs():
+        if fn.unit.name in ACCESSOR_UNITS and fn.blocks and fn.name.endswith("_stub"):
+            total += 1
+    stat.sites = total
+    stat.obligations = total
+    stat.discharged = max(0, total - n)
+    return stat
 
 
 def run(res, tier, replay=None):
@@ -13,6 +45,7 @@ def run(res, tier, replay=None):
     c04c.run_bounds(prog, res, "C19", "C19.d", {"json.c"}, floor=0)
     c04c.run_fromdouble(prog, res, "C19", "C19.e", {"json.c"}, floor=0)
     c19.run_f(prog, res)
+    type_guards(prog, res)
     c04c.bounds_witnesses(prog, res)
     res.assumptions = common.ASSUMPTIONS
     res.explanation = (
@@ -21,7 +54,7 @@ def run(res, tier, replay=None):
         "offset to an accessor helper, the helper's access width (memcpy size / indexed element size, summarised through the "
         "static helpers) and the branch conditions dominating the call must imply 0 <= off and off + width <= length of the "
         "same object (uniform vectors: 0 <= i < uvector-length of the same vector); (b) the recursion cycles of lib/chibi/json.c "
-        "go through a verified depth bound; (c) growable string buffers of json.c: the index advances by at most K between two evaluations of the growth guard `i + K >= size`. (d) the JSON number reader compares its double against SEXP_MAX_FIXNUM with the operator that stays correct under rounding of that constant; (e) no fixnum is boxed from a double accumulator unless a comparison holding on every path bounds its magnitude by 2^53 (a JSON integer must not lose its low bits on the way in). (f) JSON string escapes: every escape letter json_write_string emits is decoded by json_read_string to the character it stood for, and the quote and the backslash are escaped. Not decided: encode/decode inverses, base64/QP/URI/CSV (Scheme), mini-floats.")
+        "go through a verified depth bound; (c) growable string buffers of json.c: the index advances by at most K between two evaluations of the growth guard `i + K >= size`. (d) the JSON number reader compares its double against SEXP_MAX_FIXNUM with the operator that stays correct under rounding of that constant; (e) no fixnum is boxed from a double accumulator unless a comparison holding on every path bounds its magnitude by 2^53 (a JSON integer must not lose its low bits on the way in). (f) JSON string escapes: every escape letter json_write_string emits is decoded by json_read_string to the character it stood for, and the quote and the backslash are escaped. (g) every generated accessor stub of (srfi 160) and (scheme bytevector) type-checks its vector argument before reading its length or data (the kind-set dataflow of C01.b applied to these units, where the property asks for totality). Not decided: encode/decode inverses, base64/QP/URI/CSV (Scheme), mini-floats.")
     if tier == "thorough":
         common.thorough_mutations(res, "C19", {
             "C19.a": lambda p, r: c19.run_a(p, r, floor=0),
@@ -29,5 +62,6 @@ def run(res, tier, replay=None):
             "C19.b": lambda p, r: recursion.run(p, r, "C19", "C19.b", roots=None, floor=0, only_units={"json.c"}),
             "C19.d": lambda p, r: c04c.run_bounds(p, r, "C19", "C19.d", {"json.c"}, floor=0),
             "C19.f": lambda p, r: c19.run_f(p, r, floor=0),
+            "C19.g": lambda p, r: type_guards(p, r, floor=0),
             "C19.e": lambda p, r: c04c.run_fromdouble(p, r, "C19", "C19.e", {"json.c"}, floor=0),
         })
